@@ -759,7 +759,10 @@ def parse_static_calldefs(source=None, fpath=None):
                 source = file_.read().decode('utf-8')
         except Exception:
             try:
-                with open(fpath, 'rb') as file_:
+                # Not UTF-8: decode with the encoding the file declares
+                # (PEP 263 coding cookie), as the interpreter does.
+                import tokenize
+                with tokenize.open(fpath) as file_:
                     source = file_.read()
             except Exception:
                 print('Unable to read fpath = {!r}'.format(fpath))
